@@ -94,15 +94,21 @@ def main():
     #  /repo's HEAD and the checks are pointed at it with BEZIER_REPO; equivalent to `git -C /repo apply`)
     meta["checks"] = {}
     os.environ["BEZIER_REPO"] = wt
+    # the checks run in a private copy of the framework (own Generated data, own lake build, own evidence), so that they can
+    # run next to checks of the clean tree; only the replay files are brought back
+    priv = "/var/tmp/verif-seed-%d/verif" % os.getpid()
+    shutil.rmtree(os.path.dirname(priv), ignore_errors=True)
+    os.makedirs(priv)
+    sh(["rsync", "-a", "--exclude", ".git", "--exclude", "replays", "--exclude", "evidence/.tmp", VERIF + "/", priv + "/"])
     try:
         for p in [prop] + extra:
             t0 = time.time()
-            ev = os.path.join(VERIF, "evidence", p + ".json")
-            saved = open(ev).read() if os.path.exists(ev) else None
-            r = sh([os.path.join(VERIF, "check"), p, tier], cwd=VERIF)
-            if saved is not None:       # evidence of a run against a patched tree is not evidence of the property
-                with open(ev, "w") as fh:
-                    fh.write(saved)
+            r = sh([os.path.join(priv, "check"), p, tier], cwd=priv)
+            rp = os.path.join(priv, "replays")
+            if os.path.isdir(rp):
+                os.makedirs(os.path.join(VERIF, "replays"), exist_ok=True)
+                for f in os.listdir(rp):
+                    shutil.copy(os.path.join(rp, f), os.path.join(VERIF, "replays", f))
             lines = [l for l in r.stdout.split("\n") if l.startswith(("VIOLATION", "KNOWN-FINDING", "INFRASTRUCTURE"))]
             meta["checks"][p] = {"tier": tier, "rc": r.returncode, "lines": lines[:12], "wall_s": round(time.time() - t0, 1),
                                  "detected": r.returncode == 1 and any(l.startswith("VIOLATION") for l in lines),
@@ -112,8 +118,7 @@ def main():
         os.environ.pop("BEZIER_REPO", None)
         sh(["git", "-C", "/repo", "worktree", "remove", "--force", wt])
         shutil.rmtree("/var/tmp/bezier-seedcheck", ignore_errors=True)
-        # restore the extracted data of the clean tree
-        sh([PY, os.path.join(VERIF, "harness", "extract.py")])
+        shutil.rmtree(os.path.dirname(priv), ignore_errors=True)
     dest = os.path.join(VERIF, "seeded", name)
     os.makedirs(dest, exist_ok=True)
     for f in ("patch.diff", "demo.py", "README.md"):
